@@ -161,7 +161,7 @@ class Flow:
             if after is None:
                 break
             new_head = d.join(d.copy(head), after)
-            if it > WIDEN_AFTER:
+            if it > getattr(d, "widen_after", WIDEN_AFTER):
                 new_head = d.widen(head, new_head)
             if d.equal(new_head, head):
                 break
